@@ -61,35 +61,29 @@ Lemma cylinder_JM tv ax r :
   bhjm_cylinder tv ax mu0 FJ r = vmuls (bhjm_cylinder tv ax mu0 FM r) mu0.
 Proof.
   unfold bhjm_cylinder. destruct (cyl_scaled r) as [[z0 rr] z]. destruct (cy_pol r) as [[px py] pz].
-  destruct (cyl_inside0 r); vfield.
+  destruct (cyl_inside0 r && negb (cyl_on_edge r)); vfield.
 Qed.
 
-Lemma cylinder_J tv ax r : bhjm_cylinder tv ax mu0 FJ r = vsel (cyl_inside0 r) (cy_pol r).
+Lemma cylinder_J tv ax r : bhjm_cylinder tv ax mu0 FJ r = vsel (cyl_inside r) (cy_pol r).
 Proof.
-  unfold bhjm_cylinder. destruct (cyl_scaled r) as [[z0 rr] z]. destruct (cy_pol r) as [[px py] pz]. reflexivity.
+  unfold bhjm_cylinder, cyl_inside. destruct (cyl_scaled r) as [[z0 rr] z]. destruct (cy_pol r) as [[px py] pz]. reflexivity.
 Qed.
 
-(* B = mu0*H + J holds OFF the edge (or for zero polarization, or outside the closed body) *)
+(* B = mu0*H + J for EVERY row (after commit 41540a4 the edge is no exception) *)
 Lemma cylinder_BHJ tv ax r :
-  cyl_on_edge r = false \/ cy_pol r = vzero \/ cyl_inside0 r = false ->
   bhjm_cylinder tv ax mu0 FB r =
   vadd (vmuls (bhjm_cylinder tv ax mu0 FH r) mu0) (bhjm_cylinder tv ax mu0 FJ r).
 Proof.
-  intros Hex. unfold bhjm_cylinder.
+  unfold bhjm_cylinder.
   destruct (cyl_scaled r) as [[z0 rr] z]. destruct (cy_pol r) as [[px py] pz] eqn:Hpol.
-  assert (Hcase : cyl_on_edge r = false \/ (px = f0 /\ py = f0 /\ pz = f0) \/ cyl_inside0 r = false).
-  { destruct Hex as [H | [H | H]]; auto. right; left. injection H as -> -> ->. auto. }
-  clear Hex.
   destruct (pol_is_null (px, py, pz)) eqn:Hnull.
   - apply pol_null_zero in Hnull. injection Hnull as -> -> ->.
     cbn [negb andb]. rewrite !andb_false_r. cbn [andb].
-    destruct (cyl_inside0 r); cbn [vsel cyl_to_cart vzero vmuls vadd vdivs]; vfield.
+    destruct (cyl_inside0 r && negb (cyl_on_edge r)); cbn [vsel cyl_to_cart vzero vmuls vadd vdivs]; vfield.
   - cbn [negb andb].
     destruct (cyl_on_edge r) eqn:Hedge.
-    + cbn [negb andb]. rewrite !andb_false_r. cbn [andb].
-      destruct Hcase as [H | [(-> & -> & ->) | H]]; [discriminate | | rewrite H];
-      try destruct (cyl_inside0 r); cbn [vsel cyl_to_cart vzero vmuls vadd vdivs]; vfield.
-    + clear Hcase. cbn [negb andb]. rewrite !andb_true_r.
+    + cbn [negb andb]. rewrite !andb_false_r. cbn [andb vsel cyl_to_cart vzero vmuls vadd vdivs]. vfield.
+    + cbn [negb andb]. rewrite !andb_true_r.
       destruct (fneqb px f0) eqn:Hx; destruct (fneqb py f0) eqn:Hy; destruct (fneqb pz f0) eqn:Hz;
       try (apply fneqb_false in Hx; subst px); try (apply fneqb_false in Hy; subst py);
       try (apply fneqb_false in Hz; subst pz);
@@ -99,33 +93,28 @@ Proof.
       cbn [vmuls vadd vsub vdivs cyl_to_cart vzero]; vfield.
 Qed.
 
-
 (* ------------------------------------------------------------------ CylinderSegment *)
 Lemma seg_row_JM core a r :
   bhjm_seg_row core mu0 FJ a r = vmuls (bhjm_seg_row core mu0 FM a r) mu0.
 Proof.
   unfold bhjm_seg_row. destruct a; cbn [negb]; [|vfield].
-  destruct (seg_inside r); destruct (cs_pol r) as [[p1 p2] p3]; vfield.
+  destruct (seg_inside r && seg_not_on_surf r); destruct (cs_pol r) as [[p1 p2] p3]; vfield.
 Qed.
 
-Lemma seg_row_J core r : bhjm_seg_row core mu0 FJ true r = vsel (seg_inside r) (cs_pol r).
+Lemma seg_row_J core r : bhjm_seg_row core mu0 FJ true r = vsel (seg_inside_J r) (cs_pol r).
 Proof. reflexivity. Qed.
 
-(* off the surface (or outside the tolerance body, or pol = 0) the row is consistent, in every batch *)
+(* B = mu0*H + J for EVERY row and either value of the batch flag (after commit 77d60b2) *)
 Lemma seg_row_BHJ core a r :
-  seg_not_on_surf r = true \/ seg_inside r = false \/ cs_pol r = vzero ->
   bhjm_seg_row core mu0 FB a r =
   vadd (vmuls (bhjm_seg_row core mu0 FH a r) mu0) (bhjm_seg_row core mu0 FJ a r).
 Proof.
-  intros Hex. unfold bhjm_seg_row. destruct a; cbn [negb]; [|vfield].
+  unfold bhjm_seg_row. destruct a; cbn [negb]; [|vfield].
   destruct (cs_pol r) as [[p1 p2] p3] eqn:Hp.
   destruct (cyl_to_cart (cs_c r) (cs_s r) (core r)) as [[h1 h2] h3].
-  destruct (seg_not_on_surf r) eqn:Hoff; destruct (seg_inside r) eqn:Hin; cbn [vsel];
-  try solve [vfield].
-  destruct Hex as [H | [H | H]]; try discriminate. injection H as -> -> ->. vfield.
+  destruct (seg_not_on_surf r) eqn:Hoff; destruct (seg_inside r) eqn:Hin; cbn [vsel andb]; vfield.
 Qed.
 
-(* a batch in which NO row is off the surface returns zeros for all four fields (consistent, but J = 0) *)
 Lemma seg_all_on_surface core f r : bhjm_seg_row core mu0 f false r = vzero.
 Proof. reflexivity. Qed.
 
@@ -133,20 +122,27 @@ Lemma seg_batch_rows core f rows :
   bhjm_seg_batch core mu0 f rows = map (bhjm_seg_row core mu0 f (existsb seg_not_on_surf rows)) rows.
 Proof. reflexivity. Qed.
 
+(* J of a row of a batch is [inside and off the surface] * pol, whatever the rest of the batch *)
+Lemma seg_batch_J core rows r : In r rows ->
+  bhjm_seg_row core mu0 FJ (existsb seg_not_on_surf rows) r = vsel (seg_inside_J r) (cs_pol r).
+Proof.
+  intros Hin. destruct (existsb seg_not_on_surf rows) eqn:E; [reflexivity|].
+  assert (Hoff : seg_not_on_surf r = false).
+  { destruct (seg_not_on_surf r) eqn:Ho; [|reflexivity].
+    assert (X : existsb seg_not_on_surf rows = true) by (apply existsb_exists; exists r; split; assumption).
+    rewrite X in E. discriminate. }
+  unfold seg_inside_J. rewrite Hoff, andb_false_r. reflexivity.
+Qed.
+
 Lemma seg_internal_row_BHJ core tv ax a r :
-  (if seg_is_segment r
-   then seg_not_on_surf r = true \/ seg_inside r = false \/ cs_pol r = vzero
-   else (cyl_on_edge (seg_as_cyl r (cs_r2 r)) = false \/ cs_pol r = vzero \/ cyl_inside0 (seg_as_cyl r (cs_r2 r)) = false)
-        /\ (fneqb (cs_r1 r) f0 = true ->
-            cyl_on_edge (seg_as_cyl r (cs_r1 r)) = false \/ cs_pol r = vzero \/ cyl_inside0 (seg_as_cyl r (cs_r1 r)) = false)) ->
   bhjm_seg_internal_row core tv ax mu0 FB a r =
   vadd (vmuls (bhjm_seg_internal_row core tv ax mu0 FH a r) mu0) (bhjm_seg_internal_row core tv ax mu0 FJ a r).
 Proof.
   unfold bhjm_seg_internal_row. destruct (seg_is_segment r).
   - apply seg_row_BHJ.
-  - intros [H2 H1]. rewrite (cylinder_BHJ tv ax (seg_as_cyl r (cs_r2 r)) H2).
+  - rewrite (cylinder_BHJ tv ax (seg_as_cyl r (cs_r2 r))).
     destruct (fneqb (cs_r1 r) f0); [|reflexivity].
-    rewrite (cylinder_BHJ tv ax (seg_as_cyl r (cs_r1 r)) (H1 eq_refl)).
+    rewrite (cylinder_BHJ tv ax (seg_as_cyl r (cs_r1 r))).
     destruct (bhjm_cylinder tv ax mu0 FH (seg_as_cyl r (cs_r2 r))) as [[a1 a2] a3].
     destruct (bhjm_cylinder tv ax mu0 FJ (seg_as_cyl r (cs_r2 r))) as [[b1 b2] b3].
     destruct (bhjm_cylinder tv ax mu0 FH (seg_as_cyl r (cs_r1 r))) as [[c1 c2] c3].
@@ -275,7 +271,7 @@ Lemma tetrahedron_consistent core io r :
              (bhjm_tetrahedron core mu0 io FJ r) (bhjm_tetrahedron core mu0 io FM r).
 Proof.
   unfold consistent, bhjm_tetrahedron. cbv zeta.
-  rewrite tet_inside_chirality, chirality_pol.
+  rewrite chirality_pol.
   generalize (chirality r). intros r'.
   unfold tri_sum, tet_faces. cbn [fold_left]. unfold bhjm_triangle.
   repeat match goal with |- context [core ?x] => destruct (core x) as [[? ?] ?] end.
@@ -346,33 +342,25 @@ Lemma cuboid_full core r :
 Proof. destruct (cuboid_consistent core r) as [H1 H2]. split; [exact H1|]. split; [exact H2|]. apply J_spec. reflexivity. Qed.
 
 Lemma cylinder_full tv ax r :
-  cyl_on_edge r = false \/ cy_pol r = vzero \/ cyl_inside0 r = false ->
   magnet_spec (bhjm_cylinder tv ax mu0 FB r) (bhjm_cylinder tv ax mu0 FH r) (bhjm_cylinder tv ax mu0 FJ r)
-              (bhjm_cylinder tv ax mu0 FM r) (cy_pol r) (cyl_inside0 r).
+              (bhjm_cylinder tv ax mu0 FM r) (cy_pol r) (cyl_inside r).
 Proof.
-  intros H. split; [apply cylinder_BHJ; exact H|]. split; [apply cylinder_JM|]. apply J_spec. apply cylinder_J.
+  split; [apply cylinder_BHJ|]. split; [apply cylinder_JM|]. apply J_spec. apply cylinder_J.
 Qed.
 
-(* J, M and J = mu0*M need no exclusion *)
-Lemma cylinder_JM_full tv ax r :
-  let j := bhjm_cylinder tv ax mu0 FJ r in
-  j = vmuls (bhjm_cylinder tv ax mu0 FM r) mu0 /\ j = vsel (cyl_inside0 r) (cy_pol r) /\
-  (j = cy_pol r \/ j = vzero) /\ (cy_pol r <> vzero -> (j = cy_pol r <-> cyl_inside0 r = true)).
-Proof. cbv zeta. split; [apply cylinder_JM|]. apply J_spec. apply cylinder_J. Qed.
-
-Lemma seg_row_full core r :
-  seg_not_on_surf r = true \/ seg_inside r = false \/ cs_pol r = vzero ->
-  magnet_spec (bhjm_seg_row core mu0 FB true r) (bhjm_seg_row core mu0 FH true r) (bhjm_seg_row core mu0 FJ true r)
-              (bhjm_seg_row core mu0 FM true r) (cs_pol r) (seg_inside r).
+(* a row r of ANY batch rows (the batch-level exit included) *)
+Lemma seg_batch_full core rows r : In r rows ->
+  let out f := bhjm_seg_row core mu0 f (existsb seg_not_on_surf rows) r in
+  magnet_spec (out FB) (out FH) (out FJ) (out FM) (cs_pol r) (seg_inside_J r).
 Proof.
-  intros H. split; [apply seg_row_BHJ; exact H|]. split; [apply seg_row_JM|]. apply J_spec. reflexivity.
+  intros Hin. cbv zeta. split; [apply seg_row_BHJ|]. split; [apply seg_row_JM|]. apply J_spec.
+  apply seg_batch_J. exact Hin.
 Qed.
 
-(* a batch without any off-surface row: all four outputs are zero (consistent; J = 0 whatever the position) *)
-Lemma seg_row_all_surface core r :
-  let out f := bhjm_seg_row core mu0 f false r in
-  out FB = vadd (vmuls (out FH) mu0) (out FJ) /\ out FJ = vmuls (out FM) mu0 /\ out FJ = vzero.
-Proof. cbv zeta. cbn. repeat split; vfield. Qed.
+Lemma seg_internal_row_full core tv ax a r :
+  let out f := bhjm_seg_internal_row core tv ax mu0 f a r in
+  out FB = vadd (vmuls (out FH) mu0) (out FJ) /\ out FJ = vmuls (out FM) mu0.
+Proof. cbv zeta. split; [apply seg_internal_row_BHJ|apply seg_internal_row_JM]. Qed.
 
 Lemma sphere_full r :
   magnet_spec (bhjm_sphere mu0 FB r) (bhjm_sphere mu0 FH r) (bhjm_sphere mu0 FJ r) (bhjm_sphere mu0 FM r)
